@@ -343,10 +343,14 @@ func (r *runner) run(c *Case) {
 	r.res.Count(c.key(), c.nontrivial())
 	r.classify(c, o)
 	r.monitor(c, o)
-	if r.res.Evaluations%997 == 1 {
+	large := c.large()
+	if large {
+		r.res.Hit("large:monitor-only")
+	}
+	if r.res.Evaluations%997 == 1 && !large {
 		r.res.Sample(map[string]any{"case": c, "class": o.Class, "ret": o.Ret, "changed": ranges(o.Changed)})
 	}
-	if r.drv != nil {
+	if r.drv != nil && !large { // large buffers (> 16 KiB in total): monitor only, the model is not asked
 		r.batch = append(r.batch, pending{c, o, c.line(o.Before)})
 		if len(r.batch) >= 2048 {
 			r.flush()
@@ -631,6 +635,7 @@ func main() {
 	}
 	r.structured(g)
 	r.structuredWire(g)
+	r.structuredLarge(g, fl.Tier == "thorough" && !fl.Search)
 	fams := []struct {
 		n int
 		f func() *Case
